@@ -307,7 +307,8 @@ func checkMain(args []string, t *testing.T) int {
 		var eb bytes.Buffer
 		cmd.Stderr = &eb
 		cmd.Stdout = &eb
-		cmd.Env = append(os.Environ(), fmt.Sprintf("GOMAXPROCS=%d", gmp), "GOTRACEBACK=all")
+		// workers keep their scratch under the driver's: whatever a crashed or killed worker leaves goes with it
+		cmd.Env = append(os.Environ(), fmt.Sprintf("GOMAXPROCS=%d", gmp), "GOTRACEBACK=all", "TMPDIR="+scratch)
 		r := &wres{crashAt: -1}
 		// watchdog: a worker stops starting runs at the deadline, and no single run takes minutes; one
 		// that is still alive long after is hung (a livelock in the simulated code or in the harness).
